@@ -845,7 +845,7 @@ func threadJobs(tier string) []Job {
 	}
 	if tier == "thorough" {
 		for _, va := range []int64{0, 1, 4} {
-			for _, x := range []int64{2, 6, 12, 13, 14} {
+			for _, x := range []int64{2, 6, 13, 14} { // not 12: DHCPv4Update runs inside the packet loop
 				jobs = append(jobs, Job{Pkg: "root", Func: "VerifC09Triple", Args: []int64{va, x, 0}, Cfg: c, Threads: true, Reach: r})
 			}
 		}
